@@ -21,7 +21,7 @@ EXTENDS Naturals, Sequences, FiniteSets, TLC, IOUtils
 Limit == IF "VERIF_LIMIT" \in DOMAIN IOEnv THEN atoi(IOEnv.VERIF_LIMIT) ELSE 10
 
 \* facts of one generated message node: depth and counts of rule breaches observed in it
-\* [depth, enumBad, emptyLists, nilMsgs, badUtf8, unmapped, tsBad, durBad, anyBad, maskBad]
+\* [depth, enumBad, emptyLists, emptyScalarLists, nilMsgs, badUtf8, unmapped, tsBad, durBad, anyBad, maskBad]
 NodeOK(n, o) ==
     /\ n.enumBad = 0            \* enum fields hold declared numbers
     /\ n.badUtf8 = 0            \* strings are valid UTF-8
@@ -29,7 +29,8 @@ NodeOK(n, o) ==
     /\ (o.any => n.anyBad = 0)  \* Any (when type URLs are configured): resolvable URL, value decodes as that type
     /\ n.maskBad = 0            \* FieldMask carries the drawn paths (1..5, well-formed)
     /\ (o.mapped => n.unmapped = 0)                          \* field mappers honoured
-    /\ ((o.noempty /\ n.depth < Limit) => n.emptyLists = 0)  \* NoEmptyLists within the nesting limit
+    /\ ((o.noempty /\ n.depth < Limit) => n.emptyLists = 0)
+    /\ ((o.noempty /\ n.depth <= Limit) => n.emptyScalarLists = 0)  \* NoEmptyLists within the nesting limit
     /\ ((o.nonil /\ n.depth < Limit) => n.nilMsgs = 0)       \* DisallowNilMessages within the limit
 
 (***************************************************************************)
@@ -66,7 +67,7 @@ Gen ==
                 kidsKept == IF d + 1 > L THEN 0 ELSE nKids
                 childKept == childSet /\ d + 1 <= L
                 node == [depth |-> d, enumBad |-> IF enumVal \in EnumNumbers THEN 0 ELSE 1,
-                         emptyLists |-> (IF kidsKept = 0 THEN 1 ELSE 0) + (IF nNums = 0 THEN 1 ELSE 0),
+                         emptyLists |-> IF kidsKept = 0 THEN 1 ELSE 0, emptyScalarLists |-> IF nNums = 0 THEN 1 ELSE 0,
                          nilMsgs |-> IF childKept THEN 0 ELSE 1,
                          badUtf8 |-> 0, unmapped |-> 0, tsBad |-> 0, durBad |-> 0, anyBad |-> 0, maskBad |-> 0]
             IN /\ done' = done \cup {node}
